@@ -236,7 +236,7 @@ impl Live {
     }
 }
 
-fn start_server(id: &str, rng: &mut Rng, stray_unreal2: bool) -> Option<Live> {
+fn start_server(id: &str, rng: &mut Rng, stray_unreal2: bool, ip: IpAddr) -> Option<Live> {
     if id == "eco" {
         let st = EcoState::gen(rng);
         let body = st.body(rng, None);
@@ -256,7 +256,7 @@ fn start_server(id: &str, rng: &mut Rng, stray_unreal2: bool) -> Option<Live> {
     } else {
         seed_server(&Ep::Generic(idx), rng)
     };
-    serve(IpAddr::V4(Ipv4Addr::LOCALHOST), server).ok().map(Live::Model)
+    serve(ip, server).ok().map(Live::Model)
 }
 
 impl C19 {
@@ -266,11 +266,21 @@ impl C19 {
         let mode = MODES[((cx.idx / (GAMES.len() as u64 * 6)) % 2) as usize];
         let stray = id == "unrealtournament2004" && cx.rng.chance(1, 3);
         let base = cx.rng.clone();
-        let lo = IpAddr::V4(Ipv4Addr::LOCALHOST);
+        // how the caller names the host: an IPv4 literal, an IPv6 literal (plain or bracketed), or a name
+        let form = if id == "eco" { 0 } else { cx.rng.below(10) };
+        let (lo, host_arg): (IpAddr, String) = match form {
+            1 => match std::net::ToSocketAddrs::to_socket_addrs(&("localhost", 0)).ok().and_then(|mut a| a.next()) {
+                Some(a) => (a.ip(), "localhost".to_string()),
+                None => (IpAddr::V4(Ipv4Addr::LOCALHOST), "127.0.0.1".to_string()),
+            },
+            2 => (IpAddr::V6(std::net::Ipv6Addr::LOCALHOST), "::1".to_string()),
+            3 => (IpAddr::V6(std::net::Ipv6Addr::LOCALHOST), "[::1]".to_string()),
+            _ => (IpAddr::V4(Ipv4Addr::LOCALHOST), "127.0.0.1".to_string()),
+        };
         let game = gamedig::GAMES.get(id).unwrap();
         // 1. the library's own answer to this server
         let mut r1 = base.clone();
-        let Some(live) = start_server(id, &mut r1, stray) else { return cx.inconclusive("cannot start loopback server") };
+        let Some(live) = start_server(id, &mut r1, stray, lo) else { return cx.inconclusive("cannot start loopback server") };
         let d = Duration::from_secs(2);
         let ts = TimeoutSettings::new(Some(d), Some(d), Some(d), 0).ok();
         let port = live.port();
@@ -291,9 +301,10 @@ impl C19 {
         };
         // 2. the CLI against an identical server
         let mut r2 = base.clone();
-        let Some(live) = start_server(id, &mut r2, stray) else { return cx.inconclusive("cannot start loopback server") };
+        let Some(live) = start_server(id, &mut r2, stray, lo) else { return cx.inconclusive("cannot start loopback server") };
         let mut cmd = crate::core::framework::wrapped_command(&cli());
-        cmd.args(["query", "-g", id, "-i", "127.0.0.1", "-p", &live.port().to_string(), "-f", fmt, "-o", mode, "--read-timeout", "2", "--write-timeout", "2", "--connect-timeout", "2"]);
+        cx.count(&format!("host-form|{}", ["ipv4-literal", "name", "ipv6-literal", "bracketed-ipv6-literal"][if form < 4 { form as usize } else { 0 }]));
+        cmd.args(["query", "-g", id, "-i", &host_arg, "-p", &live.port().to_string(), "-f", fmt, "-o", mode, "--read-timeout", "2", "--write-timeout", "2", "--connect-timeout", "2"]);
         let out = proc::run(cmd, Duration::from_secs(30));
         drop(live);
         cx.eval();
